@@ -854,7 +854,8 @@ impl<'a> Checker<'a>
         let PKind::Removal(c) = later.kind else { return None };
         // events on the same entity are indistinguishable in the trace (remove, re-insert, remove): the attribution of a reaction
         // to one of them is a guess, so only events that are the sole pending one for their entity are judged
-        let unique = |k: usize| !self.polled.iter().enumerate().any(|(x, p)| x != k && !p.closed && p.ent == self.polled[k].ent && matches!(p.kind, PKind::Removal(c2) if c2 == c));
+        // (closed events count too: a removal checker created later still reads removals that happened before it existed, N4)
+        let unique = |k: usize| !self.polled.iter().enumerate().any(|(x, p)| x != k && p.ent == self.polled[k].ent && matches!(p.kind, PKind::Removal(c2) if c2 == c));
         if !unique(i) { return None; }
         for j in 0..i
         {
